@@ -16,6 +16,7 @@ from __future__ import annotations
 
 import ast
 import itertools
+import os
 import sys
 from typing import Any, Dict, List, Optional, Tuple
 
@@ -243,6 +244,76 @@ def char_classes(t: pt.Tables) -> Tuple[List[Tuple[str, List[Tuple[int, int]], s
     return classes, n + 1
 
 
+UNICODEDATA_OBSERVERS = ("name", "category", "numeric", "decimal", "digit", "bidirectional", "combining",
+                         "east_asian_width", "mirrored", "decomposition", "normalize", "lookup")
+STR_OBSERVERS = ("isalpha", "isdigit", "isdecimal", "isnumeric", "isspace", "isprintable", "isidentifier",
+                 "isalnum", "isupper", "islower", "istitle", "isascii")
+
+
+def character_observers() -> List[str]:
+    """Functions the hand-written parsing module applies to characters besides the terminal regexes
+    (read from its AST): unicodedata.* and the str.is* predicates.  The terminal classes are refined
+    by what each observer returns (or whether it raises), so that every behaviour of the module on a
+    character has a representative."""
+    import ast
+
+    tree = ast.parse(open(os.path.join(os.environ.get("VERIF_REPO", "/repo"), "src/measured/parsing.py")).read())
+    found = set()
+    imported = {}
+    for node in ast.walk(tree):
+        if isinstance(node, ast.ImportFrom) and node.module == "unicodedata":
+            for a in node.names:
+                imported[a.asname or a.name] = a.name
+    for node in ast.walk(tree):
+        if isinstance(node, ast.Attribute):
+            owner = ast.unparse(node.value)
+            if owner.split(".")[-1] == "unicodedata" and node.attr in UNICODEDATA_OBSERVERS:
+                found.add("unicodedata." + node.attr)
+            elif node.attr in STR_OBSERVERS:
+                found.add("str." + node.attr)
+        elif isinstance(node, ast.Name) and node.id in imported and imported[node.id] in UNICODEDATA_OBSERVERS:
+            found.add("unicodedata." + imported[node.id])
+    return sorted(found)
+
+
+def observer_representatives(classes: List[Tuple[str, List[Tuple[int, int]], str]],
+                             observers: List[str]) -> List[str]:
+    """One character per (terminal class, observer signature)."""
+    import unicodedata
+
+    def sig(ch: str) -> Tuple:
+        out = []
+        for o in observers:
+            mod, fn = o.split(".")
+            try:
+                if mod == "str":
+                    v: Any = getattr(ch, fn)()
+                elif fn == "normalize":
+                    v = tuple(unicodedata.normalize(f, ch) == ch for f in ("NFC", "NFKC", "NFD", "NFKD"))
+                elif fn == "name":
+                    unicodedata.name(ch)
+                    v = "named"
+                elif fn == "lookup":
+                    v = None
+                else:
+                    v = getattr(unicodedata, fn)(ch)
+            except ValueError:
+                v = "raises ValueError"
+            except Exception as e:  # noqa
+                v = "raises " + type(e).__name__
+            out.append(v)
+        return tuple(out)
+
+    reps: Dict[Tuple, str] = {}
+    for ci, (_, ranges, rep_ch) in enumerate(classes):
+        for a, b in ranges:
+            for c in range(a, b + 1):
+                k = (ci, sig(chr(c)))
+                if k not in reps:
+                    reps[k] = chr(c)
+    return list(reps.values())
+
+
 def snapshot() -> Tuple:
     import measured
 
@@ -325,7 +396,7 @@ def word_worker(task: Tuple) -> Dict[str, Any]:
     n = ok = rej = 0
     history: List[str] = []           # texts this process parsed before (for history-dependent results)
     for pre in prefixes:
-        for tail in itertools.product(reps, repeat=L - len(pre)):
+        for tail in itertools.product(reps, repeat=max(L - len(pre), 0)):
             text = "".join(pre) + "".join(tail)
             n += 1
             (u, q) = classify(text)
@@ -530,6 +601,20 @@ def main(tier: str, selftest_cases: int = 0) -> int:
         else:
             for first in reps_used:
                 tasks.append((reps_used, [(first,)], length))
+    # characters the module looks at through something other than the terminals: every (class,
+    # observer signature) gets a representative, tried in words of <= 2 and inside sentences
+    observers = character_observers()
+    rep.coverage["character_observers"] = observers
+    if observers:
+        oreps = [c for c in observer_representatives(classes, observers) if c not in reps_used]
+        rep.coverage["observer_representatives"] = len(oreps)
+        ctx_words = []
+        for c in oreps:
+            ctx_words += [(c,), ("m", c), (c, "m"), ("5", " ", "m", c), ("5", " ", c), ("5", c), ("m", "^", c),
+                          ("m", " ", c, " ", "s"), ("m", "/", c)]
+            ctx_words += [(c, r) for r in reps_used] + [(r, c) for r in reps_used]
+        for chunk in par.chunks(ctx_words, 32):
+            tasks.append(([], chunk, 0))
     results = par.run("props.c17", "word_worker", tasks)
     total = sum(r["n"] for r in results)
     accepted = sum(r["ok"] for r in results)
